@@ -790,7 +790,9 @@ func DFT(e Bits) DFTResult {
 	}
 	X := FFT(x)
 	T := math.Sqrt(2.995732274 * float64(n))
-	eps := 1e-9 * math.Sqrt(float64(n)) // generous absolute slack on a magnitude
+	// absolute slack on a magnitude: the two transforms' own rounding (about 1e-16 * log2(N) * sqrt(n)) with a
+	// factor of ~10^3 to spare; the property allows either count only inside floating-point resolution
+	eps := 2e-12 * math.Sqrt(float64(n))
 	var r DFTResult
 	for i := 0; i < n/2-1; i++ {
 		a := cmplx.Abs(X[i])
